@@ -1279,16 +1279,22 @@ class C17(Property):
                   "decoder tied by correspondence on generated (type, document) pairs; yaml.v2, go-toml/v2, encoding/json, "
                   "strconv are hypotheses, not modelled. Known findings F8a/F8b (+ F8c..F8e found while building) are refuted "
                   "witnesses next to the positive theorems.")
-    rule = ("load cases: generated struct types (14 scalar kinds, pointers, slices, maps, nested and embedded structs, "
-            "optional/default/range/options), documents with right- and wrong-typed values, re-cased twin document, "
-            "optional environment; std cases: plain-tag types, JSON document incl. nulls; non-trivial = at least one format "
-            "accepted and the document has a nested value, a float literal or a re-cased key; distinct = canonical JSON hash")
+    rule = ("load cases: generated struct types (14 scalar kinds, pointers incl. **, slices, maps, nested and embedded structs, "
+            "optional/default/range/options), documents with right- and wrong-typed values, re-cased twin, optional environment "
+            "(references in values and keys), properties lines; std: plain-tag types, JSON incl. nulls; mfmt: mapping's own "
+            "YAML/TOML/JSON entry points; shape: every nesting of *,**,[],[N],map over structs / declared types / Duration / "
+            "json.Number / any / []byte up to depth 3; bad: malformed texts; hand-written YAML/TOML syntax; non-trivial = a format "
+            "accepted and the document is nested / has a float literal / a re-cased key (shape: the lower-cased map differs from "
+            "the document as written); distinct = canonical JSON hash")
     trusted_base = [
         "models theories/C17/Model.v (conf, internal/encoding, reference encoding/json decoder) are hand-written; tie = correspondence run",
         "third-party parsers/printers (encoding/json, gopkg.in/yaml.v2, go-toml/v2) and strconv float formatting: Section hypotheses "
         "`parse f (render f d) = Some (shape rf f d)` and the per-document boolean `leaves_ok rf d`, both evaluated on every case "
         "(intermediate JSON of encoding.YamlToJson/TomlToJson dumped by harness/overlay/encoding/verif_c17_test.go)",
         "os.ExpandEnv is modelled for ${NAME}/$NAME only; generated strings stay inside that fragment",
+        "wide type shapes (arrays, declared types, Duration, json.Number, any, []byte): only the conf layer is modelled (Shapes.v, tied "
+        "white-box by harness/overlay/conf/verif_c17_test.go); decoded values are compared between formats / twins as opaque dumps",
+        "known findings are suppressed only if C17/KnownCheck.v says the model reproduces every observation of the case",
         "C08's unmarshaller model (theories/C08) and its trusted base",
     ]
     assumptions = ["float literals have <= 15 significant digits (exact decimal = float64 behaviour)",
@@ -1310,11 +1316,14 @@ class C17(Property):
             txt, n = re.subn(r"(?m)^package c17t$", "package conf", src, count=1)
             if n != 1:
                 return False, "harness/c17t/types.go: package clause not found"
-            d = os.path.join(vlib.ROOT, ".run", "c17-%d" % os.getpid())
+            d = os.path.join(vlib.ROOT, ".run", "c17")
             os.makedirs(d, exist_ok=True)
             self.types_copy = os.path.join(d, "verif_c17_types_test.go")
-            with open(self.types_copy, "w") as f:
-                f.write(txt)
+            if not os.path.exists(self.types_copy) or open(self.types_copy).read() != txt:
+                tmp = self.types_copy + ".tmp%d" % os.getpid()
+                with open(tmp, "w") as f:
+                    f.write(txt)
+                os.replace(tmp, self.types_copy)
         return ok, ("" if ok else res)
 
     # ---- cases
@@ -1596,6 +1605,14 @@ class C17(Property):
         rich = '"fl"' in txt or txt.count('"m"') > 1 or '"l"' in txt or bool(case.get("doc2"))
         if case["kind"] == "std":
             return rich and (obs.get("mapping") or {}).get("verdict") == "ok" and (obs.get("stdjson") or {}).get("verdict") == "ok"
+        if case["kind"] == "mfmt":
+            return rich and any(r.get("verdict") == "ok" for r in (obs.get("mbytes") or {}).values())
+        if case["kind"] == "bad":
+            return all(r.get("verdict") == "error" for r in (obs.get("load") or {}).values())
+        if case["kind"] == "shape":
+            # the lower-casing did something: the map handed to the unmarshaller is not the document as written
+            w = obs.get("white") or {}
+            return bool(w.get("lc")) and json.loads(w["lc"]) != json.loads(obs["texts"]["json"])
         return rich and any(r.get("verdict") == "ok" for r in (obs.get("load") or {}).values())
 
     def features(self, case, obs):
@@ -1609,8 +1626,14 @@ class C17(Property):
                 fs.append("env")
             if any(f.get("emb") for f in case["type"]):
                 fs.append("embedded")
-        else:
+        elif case["kind"] == "std":
             fs.append("std=%s/%s" % ((obs.get("mapping") or {}).get("verdict"), (obs.get("stdjson") or {}).get("verdict")))
+        elif case["kind"] == "shape":
+            fs.append("shape-loaded" if obs.get("load") else "shape-conf-layer-only")
+            if obs.get("load"):
+                fs.append("load=" + "/".join(sorted(set(r.get("verdict") for r in obs["load"].values()))))
+        if case.get("texts"):
+            fs.append("hand-written-text")
         txt = json.dumps(case["doc"])
         if '"fl"' in txt:
             fs.append("float-literal")
